@@ -57,7 +57,7 @@ LEVEL = "model_checking"
 T_UNDEF = "Variable not defined"      # VarNotDefinedError and VarMaybeNotDefinedError
 T_TYPES = "Different types"           # BranchTypeError
 
-VARS = ("x", "y", "inner")
+VARS = ("x", "y", "inner", "glob")
 IDX = {v: i for i, v in enumerate(VARS)}
 
 A_X1 = Atom("x=1", "x = 1", (("def", "x", "I"),))
@@ -76,9 +76,15 @@ A_DEF2 = Atom("def-inner-reading-y", "def inner() -> None:\n    use(y)", (("use"
 BASE_ATOMS = (A_X1, A_XT, A_YX, A_UX, A_UY, A_RET)
 NESTED_ATOMS = (A_X1, A_XT, A_UX, A_DEF, A_CALL, A_RET)
 NESTED2_ATOMS = (A_X1, A_Y1, A_DEF, A_DEF2, A_CALL, A_RET)
+# a name that is ALSO bound at module level (a @guppy function `glob`): an assignment anywhere in the function makes it
+# a local of the whole function (Python's scoping), so a read before the assignment is a read of an undefined local
+A_GUSE = Atom("use(glob)", "use(glob)", (("use", "glob"),))
+A_GDEF = Atom("glob=2", "glob = 2", (("def", "glob", "I"),))
+A_YG = Atom("y=glob", "y = glob", (("copy", "y", "glob"),))
+GLOBAL_ATOMS = (A_GUSE, A_GDEF, A_YG, A_UY, A_RET)
 LIT_ATOMS = (A_X1, A_UX, A_YX, A_UY, A_RET)
 TYPED_ATOMS = (A_XT, A_X2, A_YX, A_UX, A_UY, A_RET)
-ALL_ATOMS = (A_X1, A_XT, A_X2, A_YX, A_UX, A_UY, A_RET, A_DEF, A_CALL, A_Y1, A_DEF2)
+ALL_ATOMS = (A_X1, A_XT, A_X2, A_YX, A_UX, A_UY, A_RET, A_DEF, A_CALL, A_Y1, A_DEF2, A_GUSE, A_GDEF, A_YG)
 
 PRELUDE_MOD = "vc08_prelude"
 PRELUDE_SRC = (
@@ -86,10 +92,13 @@ PRELUDE_SRC = (
     "T = guppy.type_var(\"T\")\n"
     "@guppy.declare\n"
     "def use(x: T) -> None: ...\n"
+    "@guppy\n"
+    "def glob() -> int:\n"
+    "    return 1\n"
 )
 # every generated program imports the (once per process) prelude module: declaring
 # `use` anew for each program would cost more than checking the program
-HEADER = f"from {PRELUDE_MOD} import guppy, use\n"
+HEADER = f"from {PRELUDE_MOD} import guppy, use, glob\n"
 
 
 def _ensure_prelude() -> None:
@@ -109,6 +118,7 @@ def bounds(tier: str) -> dict:
             "typed": [(3, 2, WF, False)],
             "nested": [(4, 2, W, False), (3, 2, WF, True)],
             "nested2": [(5, 2, W, False)],
+            "shadow-global": [(4, 2, W, False)],
             "dead": [(3, 2, WF, False)],
             "dead-typed": [(4, 1, W, False)],
             "literal": [(3, 2, WF, False)],
@@ -118,6 +128,7 @@ def bounds(tier: str) -> dict:
         "typed": [(4, 3, WF, False)],
         "nested": [(5, 3, W, False), (4, 3, WF, True)],
         "nested2": [(6, 2, W, False), (4, 2, WF, True)],
+        "shadow-global": [(5, 3, W, False), (4, 2, WF, True)],
         "dead": [(4, 2, WF, False)],
         "dead-typed": [(4, 2, WF, False)],
         "literal": [(4, 2, WF, False)],
@@ -173,6 +184,9 @@ def programs(tier: str):
     for body in _enum(NESTED2_ATOMS, b["nested2"]):
         if _contains(body, A_DEF) and _contains(body, A_DEF2):
             yield ("nested2", body, None)
+    for body in _enum(GLOBAL_ATOMS, b["shadow-global"]):
+        if _contains(body, A_GDEF):
+            yield ("shadow-global", body, None)
     for body in _enum(BASE_ATOMS, b["dead"], allow_dead_code=True):
         if pg.has_dead_code(body):
             yield ("dead", body, None)
@@ -461,6 +475,8 @@ def _fam(family: str) -> str:
     """Coarse family group used in violation keys (one defect, one key)."""
     if family.startswith("nested"):
         return "nested"
+    if family == "shadow-global":
+        return "shadow-global"
     if family.startswith("dead"):
         return "unreachable-code"
     return "flat"
